@@ -58,6 +58,22 @@ func RuleU1(c *Ctx) {
 					sc.Holds(key, pos, "scanner length helper: runs only after at least one byte was consumed (checked on the automaton by S1d)")
 					return true
 				}
+				// a part of such a helper moved into a function of its own (`restOfFile()`):
+				// every caller is a length helper
+				if obj, ok := info.Defs[fd.Name].(*types.Func); ok && !c.usedAsValue(obj) {
+					sites := c.callSitesOf(obj)
+					all := len(sites) > 0
+					for _, cs := range sites {
+						co := declObj(cs)
+						if cs.Decl == nil || co == nil || !(m.IsLibLenFunc(co) || (m.FuncsSeen[cs.Decl.Name.Name] && asksLibLength(cs.Pk.TypesInfo, cs.Decl, m.IsLibLenFunc))) {
+							all = false
+						}
+					}
+					if all {
+						sc.Holds(key, pos, fmt.Sprintf("called only from scanner length helpers (%d), which run after at least one byte was consumed", len(sites)))
+						return true
+					}
+				}
 			}
 			body := innermostBody(fd, call)
 			cf := c.CFG(pk, body.body)
